@@ -1130,6 +1130,11 @@ def sc_c10(name, seed, mtu, heavy=False):
         if rng.random() < 0.6:
             d0 = rng.choice(descs)
             s.rx([2], probe(d0[2], d0[3], rng.choice([X, PEER]), b_mac, train=rng.random() < 0.5))
+        # the other discovery service comes and goes on B in the meantime (Windows enumerates quickly while it
+        # maps): its Reset releases the mapper binding, the topology session and what B records go on
+        if rng.random() < 0.3:
+            s.rx([2], discover(1, m, gen=rng.randrange(1, 65536), seq=seq + 400))
+            s.rx([2], reset(m, tos=1))
         s.rx([1], emit(m, a_mac, descs, seq=seq, eth_src=via))
         s.pipe(1, 2)
         if rng.random() < 0.4:
